@@ -28,7 +28,7 @@ func (g *genState) do(format string, a ...interface{}) []string {
 	op := strings.Fields(line)
 	g.x.hist += strings.Join(op, " ") + "\n"
 	res := g.x.run(op)
-	g.ops = append(g.ops, record(op, res, g.x.answer(res)))
+	g.ops = append(g.ops, record(&g.x.chain, op, res, g.x.answer(res)))
 	return strings.Fields(res)
 }
 
@@ -327,8 +327,15 @@ func (g *genState) step() {
 				g.do("kill v %d", g.pick(g.vals))
 			}
 		case 1:
-			g.do("shut b %d", b)
-			g.dead[b] = true
+			if r.Intn(2) == 0 {
+				res := g.do("shutby %d %d", b, r.Intn(nClients))
+				if len(res) > 0 && res[0] == "ok" {
+					g.dead[b] = true
+				}
+			} else {
+				g.do("shut b %d", b)
+				g.dead[b] = true
+			}
 		default:
 			// blobbers serving an open allocation are the interesting ones
 			for _, k := range open {
@@ -428,11 +435,16 @@ func (g *genState) step() {
 func gen(prop string) func(r *rand.Rand, thorough bool, i int) []string {
 	return func(r *rand.Rand, thorough bool, i int) []string {
 		tag := fmt.Sprintf("g%d-%d", r.Int63(), i)
-		init := fmt.Sprintf("init %s 1", tag)
-		x, err := newWorld(tag, true)
+		mode := "1"
+		if r.Intn(12) == 0 {
+			mode = "2" // num_validators_rewarded = 0
+		}
+		init := fmt.Sprintf("init %s %s", tag, mode)
+		x, err := newWorld(tag, mode)
 		if err != nil {
 			return []string{init}
 		}
+		x.chain = chainNext("", init)
 		g := &genState{x: x, r: r, ops: []string{init}, prop: prop, dead: map[int]bool{}, chal: map[[2]int]int{}}
 		g.setup()
 		g.newAlloc()
@@ -542,6 +554,27 @@ var scripts = [][]string{
 		"addb 0 107374182400 1000000000 100000000 0 100", "addb 1 107374182400 1000000000 100000000 1 100",
 		"stake b 0 0 1000000000000", "stake b 1 1 1000000000000",
 		"newa 3 1 1 1048576 1953124 0,1", "commit 0 0 1", "commit 0 0 1", "commit 0 0 1", "commit 0 0 1", "commit 0 0 1", "commit 0 0 1", "commit 0 0 1", "commit 0 0 1", "commit 0 0 1", "commit 0 0 1", "commit 0 0 1", "commit 0 0 1", "commit 0 0 1", "commit 0 0 1", "commit 0 0 1", "commit 0 0 1", "commit 0 0 1", "commit 0 0 1", "commit 0 0 1", "commit 0 0 1", "commit 0 0 1", "commit 0 0 1", "commit 0 0 1", "commit 0 0 1", "commit 0 0 1", "commit 0 0 1", "commit 0 0 1", "commit 0 0 1", "commit 0 0 1", "commit 0 0 1", "commit 0 0 1", "commit 0 0 1", "commit 0 0 1", "commit 0 0 1", "commit 0 0 1", "commit 0 0 1", "commit 0 1 1", "cancel 0 c3"},
+	// cv-underflow (minimized from the thorough run of seed 11): upload and delete leave blobber 1 with used data and a
+	// challenge value of 0; it lowers its price; the extend's adjustChallengePool decrements the value below zero
+	// (allocation.go 812, unchecked uint64): Props/C12 `extend_wrap_breaks`
+	{"init fx-cv-underflow 1",
+		"addb 0 107374182400 1000000000 100000000 0 100", "addb 1 107374182400 1000000000 100000000 1 100",
+		"stake b 0 0 1000000000000", "stake b 1 1 1000000000000",
+		"newa 3 1 1 3145728 100000000 0,1", "commit 0 0 1381193", "commit 0 1 26177", "commit 0 1 -13088",
+		"updb 1 - 100000000", "upd 0 c3 10000000000 5368709120 1 - -", "tick 86400 3 1", "genc", "cancel 0 c3"},
+	// num_validators_rewarded = 0 (init mode 2): a passed challenge leaves the validators' share in the pool
+	{"init fx-no-validators-rewarded 2",
+		"addb 0 107374182400 1000000000 100000000 0 100", "addb 1 107374182400 1000000000 100000000 1 100",
+		"addv 0 0", "addv 1 1", "addv 2 2",
+		"stake b 0 0 1000000000000", "stake b 1 1 1000000000000",
+		"stake v 0 3 100000000000", "stake v 1 3 100000000000", "stake v 2 3 100000000000",
+		"newa 3 1 1 1073741824 100000000000 0,1", "commit 0 0 104857600", "commit 0 1 104857600",
+		"tick 86400 5 1", "genc", "genc", "resp 0 0 pass", "resp 0 1 pass", "tick 86400 5 1", "cancel 0 c3"},
+	// shutdown_blobber by a stranger, by the delegate wallet, and again on the dead blobber (authorisation comes first)
+	{"init fx-shutby 1",
+		"addb 0 107374182400 1000000000 100000000 0 100", "addb 1 107374182400 1000000000 100000000 1 100",
+		"stake b 0 0 1000000000000", "stake b 1 1 1000000000000",
+		"newa 3 1 1 1073741824 100000000000 0,1", "shutby 1 2", "shutby 1 1", "shutby 1 2", "shutby 1 1", "shut b 1", "cancel 0 c3"},
 	// price change, then extend: the offer delta must use the OLD terms for the share already held
 	{"init fx-reprice-extend 1",
 		"addb 0 107374182400 1000000000 100000000 0 100", "addb 1 107374182400 1000000000 100000000 1 100",
